@@ -181,6 +181,19 @@ def insCompare (k : InsKind) (v : Val) (path : List Bytes) (o : Op) (right : Byt
     | .nil => none
     | leaf => leaf.cmpLit o right
 
+/-- `Inspector.Compare` returns an error: the code-generated inspectors parse the right side into the
+    field's own type (`strconv.ParseInt / ParseUint / ParseFloat / ParseBool`) and pass the error on; the
+    static and strings inspectors never fail. -/
+def insCompareErr (k : InsKind) (v : Val) (path : List Bytes) (o : Op) (right : Bytes) : Bool :=
+  match k with
+  | .obj => match getPathObj v path with
+    | .int n => ((Val.int n).cmpLit o right).isNone
+    | .uint n => ((Val.uint n).cmpLit o right).isNone
+    | .float t => ((Val.float t).cmpLit o right).isNone
+    | .bool b => ((Val.bool b).cmpLit o right).isNone
+    | _ => false
+  | _ => false
+
 /-- Strict path walk for `Length` of the code-generated inspectors: `none` as soon as a chunk does not
     resolve (the result buffer then stays at the 0 it was initialised with). -/
 def strictPathObj : Val → List Bytes → Option Val
